@@ -236,10 +236,13 @@ func (s *seqRun) touch(t int) {
 		}
 		// beyond the judged span: the pin may or may not have been given up
 		lateHere = true
-		if got == c.ver {
+		if got == c.ver || got == cur {
+			// still pinned (the pin entry may outlive its version: the lookup then falls back to the
+			// current version without re-pinning) ...
 			next = append(next, c)
 		}
 		if got == cur {
+			// ... or the pin was given up and the transaction pinned afresh
 			next = append(next, cand{cur, now})
 		}
 	}
@@ -409,7 +412,7 @@ func runSeq(v *sim.Verdict, rp replay, root string) {
 	v.Count("judged_pin_differs_from_current", s.pinMattered)
 	v.Count("edge_lookups_not_judged", s.edge)
 	v.Count("late_lookups", s.late)
-	v.Count("late_lookups_repinned", s.lateRepinned)
+	v.Count("late_lookups_served_current", s.lateRepinned)
 	if s.pinMattered > 0 {
 		v.Distinct(fmt.Sprintf("%s|txn%d|upd%d|load%d|rev%d|pm%d|late%v|dt%d", spec.Kind, len(s.pins), bucket(s.nUpd), bucket(s.nLoad), bucket(s.nRev),
 			bucket(s.pinMattered), s.late > 0, int(s.maxDt/tick)))
@@ -549,7 +552,7 @@ func genConc(r *sim.Rand, thorough bool) *concSpec {
 	}
 	total := c.Workers * c.Pairs * 2
 	c.OpsPerUpd = max(total/(c.Updates+1), 1)
-	for i := 0; i < total/c.OpsPerAdv+2; i++ {
+	for i := 0; i < 64; i++ {
 		c.StepsMs = append(c.StepsMs, sim.Pick(r, []int64{500, 1000, 2000, 3000, 4000, 5000, 5001, 6000, 7000, 11000}))
 	}
 	return c
@@ -587,6 +590,12 @@ func runConc(v *sim.Verdict, rp replay) {
 			runtime.Gosched()
 		}
 	}
+	var advances atomic.Int64
+	waitAdv := func(target int64) {
+		for spins := 0; advances.Load() < target && !done.Load() && spins < 200000; spins++ {
+			runtime.Gosched()
+		}
+	}
 	var wg, aux sync.WaitGroup
 	panicked := make(chan string, cs.Workers+2)
 	guard := func(where string, fn func()) {
@@ -609,8 +618,8 @@ func runConc(v *sim.Verdict, rp replay) {
 					pr.ta = clk.Now()
 					pr.d1 = acc.GetTxnPoliciesData(config.TxnID(pr.id))
 					pr.s1 = started.Load()
-					at := ops.Add(1)
-					waitOps(at + int64(r.Intn(cs.MaxGap+1)*cs.Workers))
+					ops.Add(1)
+					waitAdv(advances.Load() + int64(r.Intn(cs.MaxGap+1)))
 					pr.d2 = acc.GetTxnPoliciesData(config.TxnID(pr.id))
 					pr.tb = clk.Now()
 					pr.updatesBetween = completed.Load() - pr.c0
@@ -640,9 +649,8 @@ func runConc(v *sim.Verdict, rp replay) {
 		defer aux.Done()
 		guard("advancer", func() {
 			for i := 0; !done.Load(); i++ {
-				waitOps(int64((i + 1) * cs.OpsPerAdv))
-				if done.Load() {
-					return
+				for y := 0; y < cs.OpsPerAdv*4; y++ { // free-running, paced by yields only
+					runtime.Gosched()
 				}
 				step := time.Duration(cs.StepsMs[i%len(cs.StepsMs)]) * time.Millisecond
 				clk.Advance(step, func(w sim.Waiter) {
@@ -654,6 +662,7 @@ func runConc(v *sim.Verdict, rp replay) {
 						}
 					}
 				})
+				advances.Add(1)
 			}
 		})
 	}()
@@ -767,7 +776,12 @@ func main() {
 	total := nExh + nSamp + nRand + nConc
 	lo, hi := args.Share(total)
 	v.Extra["space"] = map[string]int{"exhaustive_histories": nExh, "exhaustive_max_len": exhLen, "sampled_len5to8": nSamp, "random_len12to60": nRand, "concurrent_rounds": nConc}
-	for i := lo; i < hi; i++ {
+	stride := 7919
+	for total%stride == 0 {
+		stride += 2
+	}
+	for j := lo; j < hi; j++ {
+		i := int((int64(j) * int64(stride)) % int64(total)) // bijection: spreads the kinds over the batches
 		r := args.CaseRand(i)
 		var spec caseSpec
 		switch {
